@@ -12,7 +12,7 @@ PROPERTY = 'C07'
 META = {
     'level': 'exploration',
     'technique': 'differential runtime monitor: bundle execution vs one-by-one execution of the same requests on identically initialised simulators; byte comparison of member replies, raw state comparison, offset-table arithmetic',
-    'text': 'One bundle per shard has a reply larger than 32 KiB (70..130 reads of 480 bytes, writes before and after the mark). Lists of 1..24 member requests mixing Read/Write Tag [Fragmented] and Get/Set Attribute Single, valid and CIP-failing (range, type), with overlapping ranges and duplicates so that '
+    'text': 'Bundles also hold members whose own reply is partial (reads beyond the reply budget, status 0x06 with data) between small neighbours. One bundle per shard has a reply larger than 32 KiB (70..130 reads of 480 bytes, writes before and after the mark). Lists of 1..24 member requests mixing Read/Write Tag [Fragmented] and Get/Set Attribute Single, valid and CIP-failing (range, type), with overlapping ranges and duplicates so that '
             'order matters, and members naming unknown tags, are sent once as a Multiple Service Packet and once singly, from the same random initial tag state. Every member reply inside the '
             'bundle must be byte-identical to the standalone reply, the final raw tag states must be equal, the offset table must be 2+2N, +len(reply_1), ... exactly, and the bundle status must be '
             'success (or embedded-error) whatever its members do.',
